@@ -69,6 +69,13 @@ impl Timed {
 
     /// account for one executed op; returns property findings (signature, detail)
     pub fn absorb(&mut self, out: &mut Out, line: &str, obs: &str) {
+        let raw = super::inst::last_raw_timers();
+        self.absorb_with(out, line, obs, &raw)
+    }
+
+    /// `raw`: the exact durations of the reset actions of this op (the observation prints randomised ones as `rand`)
+    pub fn absorb_with(&mut self, out: &mut Out, line: &str, obs: &str, raw: &[(usize, &'static str, u128)]) {
+        let mut raw_used = vec![false; raw.len()];
         let w: Vec<&str> = line.split_whitespace().collect();
         if w.is_empty() {
             return;
@@ -112,7 +119,28 @@ impl Timed {
                 continue;
             }
             let pt = self.ports[j - 1].clone();
-            let d = self.nominal(&pt, k, f[1]);
+            // the duration the port asked for - the host arms exactly that
+            let actual = (0..raw.len()).find(|&x| !raw_used[x] && raw[x].0 == j && raw[x].1 == KINDS[k]).map(|x| {
+                raw_used[x] = true;
+                raw[x].2
+            });
+            let d = match actual {
+                Some(ns) => {
+                    // what the configuration allows: the receipt timeout spans `timeout` announce intervals, stretched by at
+                    // most a factor two; a delay request interval is drawn from [0, 2) nominal intervals
+                    let (lo, hi) = match k {
+                        3 => (log_ns(pt.announce_log) * pt.receipt_timeout as u128, 2 * log_ns(pt.announce_log) * pt.receipt_timeout as u128),
+                        2 => (0, 2 * log_ns(pt.delay_log)),
+                        _ => (0, u128::MAX),
+                    };
+                    // S1 arms the delay request timer with zero; core::time::Duration::mul_f64 may round by a nanosecond
+                    if ns + 1 < lo || ns > hi.saturating_add(1) {
+                        out.oracle("C12", "timer-duration-outside-configured-range", &format!("{line} -> port {j} arms its {} timer with {ns} ns, configured range [{lo}, {hi}] ns", KINDS[k]));
+                    }
+                    ns
+                }
+                None => self.nominal(&pt, k, f[1]),
+            };
             let now = self.now;
             let p = &mut self.ports[j - 1];
             p.due[k] = Some(now + d);
